@@ -219,7 +219,7 @@ def main(prop, tier):
         try:
             res = json.loads(out.strip().splitlines()[-1])
         except Exception:
-            raise Broken("replay harness failed (rc=%s): %s" % (rc, out[-1500:]))
+            crash_or_broken(rc, out, "chan_seq_replay", "chan_seq replay of ChannelImpl transitions (cap=%d readers=%d)" % (cap, nr))
         mism = [l for l in out.splitlines() if l.startswith("MISMATCH")]
         return c, n, neg, res, mism, sample_e
 
@@ -230,7 +230,7 @@ def main(prop, tier):
         try:
             res = json.loads(out.strip().splitlines()[-1])
         except Exception:
-            raise Broken("explore harness failed (rc=%s): %s" % (rc, out[-1500:]))
+            crash_or_broken(rc, out, "chan_seq_explore", "chan_seq exploration (cap=%d readers=%d maxwrite=%d)" % (cap, nr, mw))
         chunks = [pre + ".%04d.ndjson" % i for i in range(res["chunks"])]
         return c, res, chunks
 
@@ -252,7 +252,7 @@ def main(prop, tier):
         try:
             rnd = json.loads(out.strip().splitlines()[-1])
         except Exception:
-            raise Broken("random harness failed (rc=%s): %s" % (rc, out[-1500:]))
+            crash_or_broken(rc, out, "chan_seq_random", "chan_seq random programs (seed %d)" % sd)
         mc_res = [f.result() for f in f_mc]
         ex_res = [f.result() for f in f_ex]
         xp_res = [f.result() for f in f_xp]
